@@ -427,6 +427,7 @@ fn replay_adts(v: &Value) -> Result<Outcome, String> {
 
 pub fn def() -> PropertyDef {
     PropertyDef {
+        fuzz_targets: &["c14_annexb"],
         id: "C14",
         level: "exploration",
         rule: "(a) EXHAUSTIVE: every string over {00,01,03,AB} up to length 10 (quick, 1 398 101 strings) / 13 (thorough, 89.5 M) through annexb_to_avcc, \
@@ -441,7 +442,7 @@ pub fn def() -> PropertyDef {
         subs: vec![
             Box::new(ESub { name: "exhaustive_small_alphabet", run: run_exhaustive, replay: replay_bytes }),
             Box::new(PSub { name: "constructive", quick: 20000, thorough: 800000, strat: constructive_strategy, eval: eval_constructive }),
-            Box::new(PSub { name: "random_bytes", quick: 60000, thorough: 2000000, strat: random_strategy, eval: eval_random }),
+            Box::new(PSub { name: "random_bytes", quick: 60000, thorough: 600000, strat: random_strategy, eval: eval_random }),
             Box::new(ESub { name: "adts_exhaustive", run: run_adts, replay: replay_adts }),
         ],
     }
